@@ -181,6 +181,8 @@ type simGenesis struct {
 	Pos  postypes.GenesisState
 	Auth authtypes.GenesisState
 	Gov  govtypes.GenesisState
+	// LazyModules: do not create the module accounts in InitChain
+	LazyModules bool
 }
 
 type simApp struct {
@@ -247,8 +249,10 @@ func newSimApp(db dbm.DB, pruning stypes.PruningOptions, gen *simGenesis) (*simA
 		a.gk.InitGenesis(ctx, a.gen.Gov)
 		// like an embedding application's genesis, make sure every module account exists from the start
 		// (a plain account created at a module address by an early send would otherwise shadow it)
-		for _, name := range simModuleAccounts {
-			a.ak.GetModuleAccount(ctx, name)
+		if !a.gen.LazyModules {
+			for _, name := range simModuleAccounts {
+				a.ak.GetModuleAccount(ctx, name)
+			}
 		}
 		return abci.ResponseInitChain{Validators: updates}
 	})
